@@ -88,6 +88,33 @@ end Cider
 
 namespace Cider
 
+/-- whenever a charged residue exists the documented family is non-empty -/
+theorem candidates_nonempty (np nn n0 : Nat) (h : 0 < np + nn) : candidates np nn n0 ≠ [] := by
+  unfold candidates
+  have h0 : ¬ (np + nn = 0) := by omega
+  rw [if_neg h0]
+  split_ifs <;>
+    simp [candOneType, candNoNeut, candManyNeut, candGeneral, List.range_succ] <;>
+    split_ifs <;> simp [List.range_succ]
+
+/-- delta-max of a charged composition bounds every candidate's delta and is attained by the first maximiser -/
+theorem dmaxComp_spec (np nn n0 : Nat) (h : 0 < np + nn) :
+    (∀ c ∈ candidates np nn n0, delta c ≤ dmaxComp np nn n0) ∧
+    (∃ c ∈ candidates np nn n0, delta c = dmaxComp np nn n0 ∧ dmaxArgComp np nn n0 = some c) := by
+  have h0 : ¬ (np + nn = 0) := by omega
+  unfold dmaxComp dmaxArgComp
+  rw [if_neg h0, if_neg h0, dmaxFold_eq]
+  obtain ⟨_, h2, h3⟩ := foldl_dstep_spec (candidates np nn n0) (-1, none)
+  refine ⟨h2, ?_⟩
+  rcases h3 with h3 | ⟨c, hc, e1, e2, _⟩
+  · exfalso
+    obtain ⟨c, hc⟩ := List.exists_mem_of_ne_nil _ (candidates_nonempty np nn n0 h)
+    have := h2 c hc
+    rw [h3] at this
+    have := delta_nonneg c
+    simp at *; linarith
+  · exact ⟨c, hc, e1.symm, e2⟩
+
 /-! ### dealing residues out along a candidate -/
 
 theorem dealOut_perm (cand : Pattern) : ∀ (ps ns us : List AA),
